@@ -57,11 +57,13 @@ pub fn components_json() -> J {
         )
 }
 
-pub const PROPERTY_IDS: &[&str] = &["C04"];
+pub const PROPERTY_IDS: &[&str] = &["C01", "C03", "C04"];
 
 macro_rules! dispatch {
     ($id:expr, $f:ident, $($arg:expr),*) => {
         match $id {
+            "C01" => $f(&props::c01::C01, $($arg),*),
+            "C03" => $f(&props::c03::C03, $($arg),*),
             "C04" => $f(&props::c04::C04, $($arg),*),
             other => {
                 eprintln!("unknown or unclaimed property '{}'; claimed: {:?}", other, PROPERTY_IDS);
